@@ -1,5 +1,5 @@
 """C21 — language-server document sync matches the client's document."""
-import glob, json, os
+import glob, json, os, re, sys
 
 PROP = "C21"
 META = {
@@ -272,6 +272,29 @@ def gen_history(rng, H, tier, uri=WA, lone_cr=False):
     doc = gen_text(rng, rng.choice([0, 1, 4, 12, 30]), allow_lone_cr=lone_cr)
     H.add("open %s %s" % (uri, hx(doc)), {"kind": "sync", "text": doc, "lone_cr": lone_cr}, start)
     for _ in range(rng.randrange(3, 14)):
+        doc = gen_notif(rng, H, uri, doc, start, lone_cr)
+
+
+def gen_two_doc_history(rng, H):
+    """two open documents edited alternately (fileMap is keyed by the URI's path)."""
+    start = len(H.ops)
+    H.add("reset", {"kind": "none"}, start)
+    uris = ["file:///w/a.wa", rng.choice(["file:///w/sub/a.wa", "file:///w/b.wa", "file:///w/a.wa.wa"])]
+    docs = [gen_text(rng, 8), gen_text(rng, 8)]
+    for u, d in zip(uris, docs):
+        H.add("open %s %s" % (u, hx(d)), {"kind": "sync", "text": d, "lone_cr": False}, start)
+    for _ in range(rng.randrange(4, 12)):
+        k = rng.randrange(2)
+        docs[k] = gen_notif(rng, H, uris[k], docs[k], start, False)
+        # the other document must be untouched: a zero-width edit at its start re-reads its stored text
+        o = 1 - k
+        H.add("change %s %s" % (uris[o], enc_changes([("R", 0, 0, 0, 0, "")])),
+              {"kind": "sync", "text": docs[o], "changes": [("R", 0, 0, 0, 0, "")], "lone_cr": False}, start)
+
+
+def gen_notif(rng, H, uri, doc, start, lone_cr):
+    """appends one notification (plus a re-open where the server is expected to drop it); returns the client's new document."""
+    if True:
         r = rng.random()
         if r < 0.62:                                    # valid incremental list
             cs, d = [], doc
@@ -320,6 +343,7 @@ def gen_history(rng, H, tier, uri=WA, lone_cr=False):
         else:                                           # re-open with new text
             doc = gen_text(rng, rng.choice([0, 5, 20]), allow_lone_cr=lone_cr)
             H.add("open %s %s" % (uri, hx(doc)), {"kind": "sync", "text": doc, "lone_cr": lone_cr}, start)
+    return doc
 
 
 def corpus_histories(H):
@@ -390,8 +414,30 @@ def gen_client_ops(rng, n):
 
 
 # ----------------------------------------------------------------------------- the check
+def regenerate(ctx):
+    """Gen/C21Filter.lean: the URI-suffix filter of DidChange, read from /repo's current source."""
+    from lib import vlib
+    out = os.path.join(vlib.LEAN, "WaVerif", "Gen", "C21Filter.lean")
+    tmp = os.path.join(ctx.tmp, "C21Filter.lean")
+    rc, o = vlib.sh([sys.executable, os.path.join(vlib.VERIF, "extract", "c21_filter.py"), vlib.REPO, tmp])
+    if rc not in (0, 3) or not os.path.exists(tmp):
+        raise vlib.InfraError("extract/c21_filter.py failed: %s" % o[-2000:])
+    if rc == 3:
+        ctx.notes.append("DidChange URI filter has an unrecognised shape; model assumes no filter (correspondence decides): " + o.strip())
+    new = open(tmp).read()
+    with vlib.Lock("lake"):
+        if not os.path.exists(out) or open(out).read() != new:
+            if os.path.exists(out):
+                os.remove(out)
+            with open(out, "w") as f:
+                f.write(new)
+    m = re.search(r":= (.*)", new)
+    return m.group(1).strip()
+
+
 def run(ctx):
     harness = ctx.build_harness("c21")
+    uri_filter = regenerate(ctx)
     ctx.prove(required=REQUIRED)
     model = ctx.build_model("c21")
     rng = ctx.rng
@@ -405,6 +451,8 @@ def run(ctx):
         gen_history(rng, H, ctx.tier)
     for _ in range(25 if quick else 400):               # documents the server ignores / other URIs
         gen_history(rng, H, ctx.tier, uri=rng.choice(["file:///w/b.wz", "file:///w/c.wa.go", "file:///w/d.txt", "file:///w/e.WA"]))
+    for _ in range(20 if quick else 300):
+        gen_two_doc_history(rng, H)
     n_guarded = len(H.ops)
     for _ in range(15 if quick else 300):               # complement of the NoLoneCR guard (measured, not judged)
         gen_history(rng, H, ctx.tier, lone_cr=True)
@@ -431,9 +479,18 @@ def run(ctx):
         return {"ops": H.ops[H.start[i]:i + 1], "impl": impl[i] if i < len(impl) else None}
 
     # ---- ORACLE: the property's predicate on the real code's answers (independent python client)
+    contaminated = set()      # histories in which server and client already diverged: later ops are not judged
+    nviol = [0]
+
+    def violation(i, key, what, rep, resynced=False):
+        if not resynced:                                # (a rejected/shape op is followed by a re-open)
+            contaminated.add(H.start[i])
+        nviol[0] += 1
+        ctx.violation(key, what, rep)
+
     for i, (op, e) in enumerate(zip(H.ops, H.exp)):
         r = impl[i] if i < len(impl) else "<missing>"
-        if e["kind"] == "none":
+        if e["kind"] == "none" or H.start[i] in contaminated:
             continue
         f = op.split()
         uri = f[1]
@@ -441,13 +498,13 @@ def run(ctx):
         in_lone = i >= n_guarded or e.get("lone_cr")
         parts = r.split()
         if r.startswith(("PANIC", "dispatch-error", "bad-op", "<missing>")) or len(parts) < 2:
-            ctx.violation("impl:" + r.split()[0], "%s -> %s" % (op[:200], r[:200]), replay_of(i))
+            violation(i, "impl:" + r.split()[0], "%s -> %s" % (op[:200], r[:200]), replay_of(i))
             continue
         try:
             stored = unhx(parts[-1]).decode("utf-8")
             status = " ".join(parts[:-1])
         except Exception:
-            ctx.violation("impl:stored-not-utf8", "%s -> %s" % (op[:200], r[:200]), replay_of(i))
+            violation(i, "impl:stored-not-utf8", "%s -> %s" % (op[:200], r[:200]), replay_of(i))
             continue
         want = e["text"]
         rep = dict(replay_of(i), required="server text == %r" % want)
@@ -472,10 +529,10 @@ def run(ctx):
                 dist["lone_cr_divergences"] += 1          # outside the guard: measured only
             elif f[0] == "change" and not is_wa:
                 dist["non_wa_ignored"] += 1
-                ctx.violation("didchange:non-wa-uri-ignored",
+                violation(i, "didchange:non-wa-uri-ignored",
                               "DidChange for %s is dropped (URI does not end in .wa): server keeps %r, client holds %r" % (uri, stored, want), rep)
             else:
-                ctx.violation("sync:server-text-differs:" + status.replace(" ", "-"),
+                violation(i, "sync:server-text-differs:" + status.replace(" ", "-"),
                               "after %s the server holds %r (%s), the client %r" % (op[:160], stored, status, want), rep)
         elif e["kind"] == "reject":
             why = e["why"]
@@ -489,18 +546,18 @@ def run(ctx):
                 nontrivial.add(("mid", status))
             elif why == "after-cr-of-crlf" and status == "ok":
                 dist["after_cr_accepted"] += 1
-                ctx.violation("invalid-accepted:column-after-cr-of-crlf",
+                violation(i, "invalid-accepted:column-after-cr-of-crlf",
                               "a range whose column is one past the content of a CRLF-terminated line is accepted and edits between \\r and \\n: "
-                              "%s -> server text %r (must be rejected, text unchanged %r)" % (op[:160], stored, want), rep)
+                              "%s -> server text %r (must be rejected, text unchanged %r)" % (op[:160], stored, want), rep, resynced=True)
             else:
-                ctx.violation("invalid:%s:%s" % (why, "text-changed" if stored != want else status.replace(" ", "-")),
-                              "invalid range (%s) not rejected cleanly: %s -> %s, stored %r, required error and %r" % (why, op[:160], status, stored, want), rep)
+                violation(i, "invalid:%s:%s" % (why, "text-changed" if stored != want else status.replace(" ", "-")),
+                              "invalid range (%s) not rejected cleanly: %s -> %s, stored %r, required error and %r" % (why, op[:160], status, stored, want), rep, resynced=True)
         elif e["kind"] in ("unchanged", "shape"):
             if in_lone or not is_wa:
                 continue
             if stored != want or not status.startswith("err"):
-                ctx.violation("shape:%s:%s" % (e["why"], status.replace(" ", "-")),
-                              "%s: %s -> %s stored %r; expected an error reply and unchanged text %r" % (e["why"], op[:160], status, stored, want), rep)
+                violation(i, "shape:%s:%s" % (e["why"], status.replace(" ", "-")),
+                              "%s: %s -> %s stored %r; expected an error reply and unchanged text %r" % (e["why"], op[:160], status, stored, want), rep, resynced=e["kind"] == "shape")
             else:
                 dist["unchanged_empty_list" if e["kind"] == "unchanged" else "shape_rejected"] += 1
                 nontrivial.add((e["kind"], e["why"], status))
@@ -575,6 +632,7 @@ def run(ctx):
         "samples": samples,
         "distribution": dist,
         "histories": sum(1 for o in H.ops if o == "reset"),
+        "regenerated": {"Gen/C21Filter.lean didChangeSuffixes": uri_filter},
         "corpus_ops": n_corpus,
     }
     return ctx.finish("proof", cov,
